@@ -75,6 +75,8 @@ def main(tier, replay=None):
     batches = [Batch("nofault", exe, "C20", "nofault", seed, 12000 if q else 10**8, secs, W, samples=True).run(),
                Batch("iofault", exe, "C20", "iofault", seed, 12000 if q else 10**8, secs, W, samples=True).run(),
                Batch("outfault", exe, "C20", "outfault", seed, 6000 if q else 10**8, secs // 2, W, samples=True).run()]
+    if not q:
+        batches.append(Batch("nofault-longfile", exe, "C20", "nofault-longfile", seed + 2, 48, 300, W).run())
     violations, known, nondet = handle_candidates("C20", batches, budget=250)
     fidelity = fidelity_crosscheck(exe, seed, 15 if tier == "quick" else 400)
     if fidelity.get("mismatches"):
